@@ -4,6 +4,7 @@ CONSTANT MCObj = {"o1"}
 CONSTANT MCHnd = {}
 CONSTANT MCBlk = {}
 CONSTANT MCTokenFirst = FALSE
+CONSTANT MCFailureTokens = TRUE
 CONSTANT MCReqs = {"okA", "okA2", "hashA", "okB", "badchar", "unknown", "star0", "star1", "methfail", "nullphrase", "nullsetting", "longphrase"}
 VIEW View
 INVARIANT TypeOK FailClosed NoStale TokenShape ShortSizes WipedIffValidated ResultIsFunction
